@@ -9,7 +9,8 @@ EV=$(mktemp -d)
 VERIF_EVIDENCE_DIR="$EV" VERIF_REPLAY_DIR="$EV" VERIF_NO_CONTROLS=1 /verif/check "$ID" --tier "$TIER" > "$EV/out.txt" 2>&1; RC=$?
 git -C /repo checkout -- .
 echo "== seed $S checked by $ID ($TIER): exit $RC"
-grep -E "^(VIOLATION|KNOWN-FINDING|UNDECIDED|ENGINE-ERROR)|  what:|failing input" "$EV/out.txt" | cut -c1-420 | head -12
+grep -E -A2 "^(VIOLATION|UNDECIDED|ENGINE-ERROR)" "$EV/out.txt" | grep -v "^--" | cut -c1-420 | head -12
+grep -c "^KNOWN-FINDING" "$EV/out.txt" | sed 's/^/known-finding lines: /'
 tail -1 "$EV/out.txt" | cut -c1-300
 rm -rf "$EV"
 exit $RC
